@@ -1,6 +1,405 @@
 package main
 
-// replayFinding re-runs a counterexample natively against the real compiled code.
+// Native replay of counterexamples: the harness is compiled with the real Go compiler into the
+// package under test (go test -overlay), vf* functions read the solver's model, every
+// //verif:stub target is redirected through an injected hook, and the real code runs.
+
+import (
+	"bytes"
+	"context"
+	"encoding/json"
+	"fmt"
+	"go/ast"
+	"go/parser"
+	goprinter "go/printer"
+	"go/token"
+	"os"
+	"os/exec"
+	"path/filepath"
+	"sort"
+	"strings"
+	"sync"
+	"time"
+
+	"golang.org/x/tools/go/ssa"
+	"golang.org/x/tools/go/ssa/ssautil"
+)
+
+var loadedByHarness = map[string]*loaded{}
+var loadedMu sync.Mutex
+
+type hookInfo struct {
+	target  string // full ssa name
+	stub    string // harness function name
+	file    string // source file of the target
+	pkgPath string
+	pkgName string
+	varName string
+}
+
+func findFunction(prog *ssa.Program, full string, cache *map[string]*ssa.Function) *ssa.Function {
+	if *cache == nil {
+		*cache = map[string]*ssa.Function{}
+		for fn := range ssautil.AllFunctions(prog) {
+			(*cache)[fn.String()] = fn
+		}
+	}
+	return (*cache)[full]
+}
+
+func exprString(fs *token.FileSet, n ast.Node) string {
+	var b bytes.Buffer
+	goprinter.Fprint(&b, fs, n)
+	return b.String()
+}
+
+// injectHook rewrites src so that the function declared at offset pos starts with a hook check.
+func injectHook(filename string, src []byte, declLine int, varName string) ([]byte, error) {
+	fs := token.NewFileSet()
+	af, err := parser.ParseFile(fs, filename, src, parser.ParseComments)
+	if err != nil {
+		return nil, err
+	}
+	var fd *ast.FuncDecl
+	for _, d := range af.Decls {
+		if f, ok := d.(*ast.FuncDecl); ok && fs.Position(f.Name.Pos()).Line == declLine {
+			fd = f
+		}
+	}
+	if fd == nil || fd.Body == nil {
+		return nil, fmt.Errorf("function declaration not found at %s:%d", filename, declLine)
+	}
+	cnt := 0
+	var argNames, typeStrs []string
+	name := func(fl *ast.Field, variadicOK bool) {
+		ts := exprString(fs, fl.Type)
+		if len(fl.Names) == 0 {
+			fl.Names = []*ast.Ident{ast.NewIdent(fmt.Sprintf("vfp%d", cnt))}
+			cnt++
+		}
+		for _, n := range fl.Names {
+			if n.Name == "_" {
+				n.Name = fmt.Sprintf("vfp%d", cnt)
+				cnt++
+			}
+			a := n.Name
+			if _, isVar := fl.Type.(*ast.Ellipsis); isVar {
+				a += "..."
+			}
+			argNames = append(argNames, a)
+			typeStrs = append(typeStrs, ts)
+		}
+	}
+	if fd.Recv != nil {
+		for _, fl := range fd.Recv.List {
+			name(fl, false)
+		}
+	}
+	for _, fl := range fd.Type.Params.List {
+		name(fl, true)
+	}
+	resStr := ""
+	hasRes := fd.Type.Results != nil && len(fd.Type.Results.List) > 0
+	if hasRes {
+		var rs []string
+		for _, fl := range fd.Type.Results.List {
+			n := len(fl.Names)
+			if n == 0 {
+				n = 1
+			}
+			for i := 0; i < n; i++ {
+				rs = append(rs, exprString(fs, fl.Type))
+			}
+		}
+		resStr = " (" + strings.Join(rs, ", ") + ")"
+	}
+	hookType := "func(" + strings.Join(typeStrs, ", ") + ")" + resStr
+	call := varName + "(" + strings.Join(argNames, ", ") + ")"
+	stmt := "if " + varName + " != nil { "
+	if hasRes {
+		stmt += "return " + call
+	} else {
+		stmt += call + "; return"
+	}
+	stmt += " }"
+	// print the modified declaration header, then splice the hook statement textually
+	var out bytes.Buffer
+	if err := goprinter.Fprint(&out, fs, af); err != nil {
+		return nil, err
+	}
+	// re-parse printed source to find the body start offset reliably
+	printed := out.Bytes()
+	fs2 := token.NewFileSet()
+	af2, err := parser.ParseFile(fs2, filename, printed, parser.ParseComments)
+	if err != nil {
+		return nil, err
+	}
+	var fd2 *ast.FuncDecl
+	for _, d := range af2.Decls {
+		if f, ok := d.(*ast.FuncDecl); ok && f.Name.Name == fd.Name.Name && (f.Recv == nil) == (fd.Recv == nil) {
+			if f.Recv != nil && exprString(fs2, f.Recv.List[0].Type) != exprString(fs, fd.Recv.List[0].Type) {
+				continue
+			}
+			fd2 = f
+		}
+	}
+	if fd2 == nil {
+		return nil, fmt.Errorf("cannot relocate %s", fd.Name.Name)
+	}
+	off := fs2.Position(fd2.Body.Lbrace).Offset + 1
+	var res bytes.Buffer
+	res.Write(printed[:off])
+	res.WriteString("\n\t" + stmt + "\n")
+	res.Write(printed[off:])
+	res.WriteString("\nvar " + varName + " " + hookType + "\n")
+	return res.Bytes(), nil
+}
+
 func replayFinding(cfg CheckCfg, r HarnessResult, f Finding, modelPath string) string {
-	return "unreplayed"
+	if os.Getenv("VERIF_NOREPLAY") != "" {
+		return "unreplayed"
+	}
+	loadedMu.Lock()
+	l := loadedByHarness[r.Name]
+	loadedMu.Unlock()
+	if l == nil {
+		return "replay-error: package not loaded"
+	}
+	tmp, err := os.MkdirTemp("", "verif-replay-")
+	if err != nil {
+		return "replay-error: " + err.Error()
+	}
+	defer os.RemoveAll(tmp)
+	pkgdir := filepath.Join(repoMod, l.group.Pkg)
+	pkgName := l.pkg.Pkg.Name()
+	overlay := map[string]string{}
+	put := func(virtual string, content []byte) {
+		real := filepath.Join(tmp, fmt.Sprintf("f%d_%s", len(overlay), filepath.Base(virtual)))
+		os.WriteFile(real, content, 0o644)
+		overlay[virtual] = real
+	}
+	rtsrc, _ := os.ReadFile(filepath.Join(verifDir, "harness/rt/rt.go.tmpl"))
+	put(filepath.Join(pkgdir, "zz_verif_rt.go"), []byte(strings.Replace(string(rtsrc), "package PKGNAME", "package "+pkgName, 1)))
+	for _, hf := range l.group.Files {
+		src, _ := os.ReadFile(filepath.Join(verifDir, hf))
+		put(filepath.Join(pkgdir, filepath.Base(hf)), src)
+	}
+	// hooks
+	var cache map[string]*ssa.Function
+	var hooks []hookInfo
+	var targets []string
+	for t := range l.stubs {
+		targets = append(targets, t)
+	}
+	sort.Strings(targets)
+	byFile := map[string][]int{}
+	for i, t := range targets {
+		fn := findFunction(l.prog, t, &cache)
+		if fn == nil {
+			return "replay-error: stub target not found: " + t
+		}
+		pos := l.fset.Position(fn.Pos())
+		if !pos.IsValid() {
+			return "replay-error: no source position for " + t
+		}
+		pp, pn := "", ""
+		if fn.Pkg != nil {
+			pp, pn = fn.Pkg.Pkg.Path(), fn.Pkg.Pkg.Name()
+		}
+		h := hookInfo{target: t, stub: l.stubs[t].Name(), file: pos.Filename, pkgPath: pp, pkgName: pn, varName: fmt.Sprintf("VerifHook_%d", i)}
+		hooks = append(hooks, h)
+		byFile[pos.Filename] = append(byFile[pos.Filename], len(hooks)-1)
+	}
+	for file, idxs := range byFile {
+		src, err := os.ReadFile(file)
+		if err != nil {
+			return "replay-error: " + err.Error()
+		}
+		for _, i := range idxs {
+			fn := findFunction(l.prog, hooks[i].target, &cache)
+			// line of the declaration in the *current* text: search by original position only on first edit
+			line := l.fset.Position(fn.Pos()).Line
+			if len(idxs) > 1 {
+				// after an injection earlier in the file lines shift; re-locate by name
+				line = relocateLine(file, src, fn)
+			}
+			src, err = injectHook(file, src, line, hooks[i].varName)
+			if err != nil {
+				return "replay-error: hook " + hooks[i].target + ": " + err.Error()
+			}
+		}
+		put(file, src)
+	}
+	// generated test + hook installation
+	var g bytes.Buffer
+	fmt.Fprintf(&g, "package %s\n\nimport (\n\t\"fmt\"\n\t\"runtime\"\n\t\"testing\"\n", pkgName)
+	imports := map[string]string{}
+	for _, h := range hooks {
+		if h.pkgPath != l.pkg.Pkg.Path() && h.pkgPath != "" {
+			if _, ok := imports[h.pkgPath]; !ok {
+				imports[h.pkgPath] = fmt.Sprintf("vfhook%d", len(imports))
+			}
+		}
+	}
+	var ips []string
+	for p := range imports {
+		ips = append(ips, p)
+	}
+	sort.Strings(ips)
+	for _, p := range ips {
+		fmt.Fprintf(&g, "\t%s %q\n", imports[p], p)
+	}
+	fmt.Fprintf(&g, ")\n\nfunc vfInstallHooks() {\n")
+	for _, h := range hooks {
+		if alias, ok := imports[h.pkgPath]; ok {
+			fmt.Fprintf(&g, "\t%s.%s = %s\n", alias, h.varName, h.stub)
+		} else {
+			fmt.Fprintf(&g, "\t%s = %s\n", h.varName, h.stub)
+		}
+	}
+	fmt.Fprintf(&g, "}\n\n")
+	fmt.Fprintf(&g, `func TestVerifReplay(t *testing.T) {
+	vfInstallHooks()
+	vfNames = map[string]int{}
+	var m0, m1 runtime.MemStats
+	runtime.ReadMemStats(&m0)
+	defer func() {
+		r := recover()
+		runtime.ReadMemStats(&m1)
+		fmt.Printf("VERIF-ALLOC: %%d\n", m1.TotalAlloc-m0.TotalAlloc)
+		switch x := r.(type) {
+		case nil:
+			fmt.Println("VERIF-REPLAY: completed")
+		case vfAssumeFailed:
+			fmt.Println("VERIF-REPLAY: assume-failed")
+		case vfAssertFailed:
+			fmt.Printf("VERIF-REPLAY: assert-failed %%s\n", x.Label)
+		default:
+			fmt.Printf("VERIF-REPLAY: panic %%v\n", r)
+		}
+	}()
+	%s()
+}
+`, r.Name)
+	put(filepath.Join(pkgdir, "zz_verif_replay_test.go"), g.Bytes())
+	ovj, _ := json.Marshal(map[string]interface{}{"Replace": overlay})
+	ovPath := filepath.Join(tmp, "overlay.json")
+	os.WriteFile(ovPath, ovj, 0o644)
+	count := "1"
+	if f.Model != nil {
+		for k := range f.Model.Vars {
+			if strings.HasPrefix(k, "maporder") {
+				count = "300"
+			}
+		}
+	}
+	to := 600 * time.Second
+	if f.Kind == "unwind" {
+		to = 60 * time.Second
+	}
+	ctx, cancel := context.WithTimeout(context.Background(), to)
+	defer cancel()
+	args := []string{"-c", "ulimit -v 33554432; exec go test -v -vet=off -count=" + count + " -overlay " + ovPath + " -run '^TestVerifReplay$' ./" + l.group.Pkg}
+	cmd := exec.CommandContext(ctx, "sh", args...)
+	cmd.Dir = repoMod
+	cmd.Env = append(os.Environ(), "GOFLAGS=-mod=mod", "GOPROXY=off", "VERIF_MODEL="+modelPath)
+	for k, v := range r.Bounds {
+		cmd.Env = append(cmd.Env, fmt.Sprintf("VERIF_PARAM_%s=%d", k, v))
+	}
+	out, err := cmd.CombinedOutput()
+	text := string(out)
+	if ctx.Err() != nil {
+		if f.Kind == "unwind" {
+			return "reproduced"
+		}
+		return "replay-error: timeout"
+	}
+	var verdicts []string
+	maxAlloc := uint64(0)
+	for _, ln := range strings.Split(text, "\n") {
+		if strings.HasPrefix(ln, "VERIF-REPLAY: ") {
+			verdicts = append(verdicts, strings.TrimPrefix(ln, "VERIF-REPLAY: "))
+		}
+		if strings.HasPrefix(ln, "VERIF-ALLOC: ") {
+			var a uint64
+			fmt.Sscan(strings.TrimPrefix(ln, "VERIF-ALLOC: "), &a)
+			if a > maxAlloc {
+				maxAlloc = a
+			}
+		}
+	}
+	if os.Getenv("VERIF_VERBOSE") != "" {
+		fmt.Fprintf(os.Stderr, "replay %s %s: %v alloc=%d err=%v\n%s\n", r.Name, f.Where, dedup(verdicts), maxAlloc, err, tail(text, 1500))
+	}
+	if len(verdicts) == 0 {
+		if f.Kind == "alloc" && (strings.Contains(text, "out of memory") || strings.Contains(text, "makeslice") || strings.Contains(text, "cannot allocate")) {
+			return "reproduced"
+		}
+		if strings.Contains(text, "fatal error") || strings.Contains(text, "goroutine stack exceeds") {
+			return "reproduced"
+		}
+		return "replay-error: no verdict: " + tail(text, 400)
+	}
+	for _, v := range verdicts {
+		switch f.Kind {
+		case "assert":
+			if v == "assert-failed "+f.Where {
+				return "reproduced"
+			}
+		case "alloc":
+			if strings.HasPrefix(v, "panic") || maxAlloc > uint64(allocBoundOf(r)) {
+				return "reproduced"
+			}
+		default:
+			if strings.HasPrefix(v, "panic") {
+				return "reproduced"
+			}
+		}
+	}
+	return "not-reproduced (" + strings.Join(dedup(verdicts), "; ") + ")"
+}
+
+func allocBoundOf(r HarnessResult) int64 {
+	if r.AllocBound > 0 {
+		return r.AllocBound
+	}
+	return 1 << 16
+}
+
+func tail(s string, n int) string {
+	if len(s) > n {
+		return s[len(s)-n:]
+	}
+	return s
+}
+
+func relocateLine(file string, src []byte, fn *ssa.Function) int {
+	fs := token.NewFileSet()
+	af, err := parser.ParseFile(fs, file, src, 0)
+	if err != nil {
+		return -1
+	}
+	recv := ""
+	if r := fn.Signature.Recv(); r != nil {
+		recv = r.Type().String()
+		recv = recv[strings.LastIndex(recv, ".")+1:]
+	}
+	for _, d := range af.Decls {
+		fd, ok := d.(*ast.FuncDecl)
+		if !ok || fd.Name.Name != fn.Name() {
+			continue
+		}
+		if (fd.Recv == nil) != (recv == "") {
+			continue
+		}
+		if fd.Recv != nil {
+			ts := exprString(fs, fd.Recv.List[0].Type)
+			ts = strings.TrimPrefix(ts, "*")
+			if ts != recv {
+				continue
+			}
+		}
+		return fs.Position(fd.Name.Pos()).Line
+	}
+	return -1
 }
